@@ -141,15 +141,28 @@ def gen_ranges(rng, lo, hi, any_int=False):
     parts, cover = [], set()
     ok = True
     budget = 100000
+    # wide ranges that overlap heavily: the UNION stays within 10^5 integers although the sizes add up to several times
+    # that (anything that sizes, limits or allocates by the sum of the written ranges instead of by the set)
+    window = None
+    if any_int and rng.random() < 0.04:
+        w = rng.choice([99999, 70000, 50000, rng.randint(30000, 99999)])
+        lo0 = rng.choice([1, 0, -(w // 2), rng.randint(-60000, 60000 - w) if w < 120000 else 0])
+        window = (lo0, lo0 + w)
+        n = rng.randint(3, 6)
     for _ in range(n):
-        if any_int:
+        if window is not None:
+            a = rng.randint(window[0], window[0] + (window[1] - window[0]) // 4) if rng.random() < 0.7 else window[0]
+            b = rng.randint(window[1] - (window[1] - window[0]) // 4, window[1]) if rng.random() < 0.7 else window[1]
+            span = b - a
+        elif any_int:
             a = rng.choice([rng.randint(-3000, 3000), rng.randint(-70000, 70000)])
             span = rng.choice([0, 0, 0, 1, 1, 2, 2, 3, 5, 5, 9, 50, 50, 300, rng.randint(0, min(budget, 20000)) if rng.random() < 0.3 else 7])
         else:
             a, _ = pick_field(rng, lo, hi)
             span = rng.choice([0, 0, 0, 1, 2, 3, rng.randint(0, 8)])
-        b = a + span
-        budget -= span
+        if window is None:
+            b = a + span
+            budget -= span
         if a == b:
             sp = rng.choice(["%d" % a, "%d" % a, "%d]" % a])
             if a < 0 and rng.random() < 0.0:
